@@ -975,7 +975,7 @@ S_ARS = OneOf(Seq(["0007F0200231310000", "0007F0200232330000"]), Seq(["000131", 
               Seq(["0010F5000231310939393939393939393900", "0010F5000232320938383838383838383800"]), Seq(["0002BF01", "0002BF02"]), Seq(["0002FF03", "0002FF07"]),
               Seq(["000174", "000154"]), Seq(["00013F", "00017F"]), Seq(["00033F1080", "00037F1080"]), Seq(["00067002313200" + "00", "00067002333400" + "00"]))
 S_MBXML = OneOf(*[Seq([v, v.replace("2468ACE0", "13579BDF")]) for v in V_MBXML[:6] + V_MBXML[10:]],
-                Seq(V_MBXML[6:8]), Seq(V_MBXML[8:10]), Seq(["0D0F22042468ACE0" + "0D0922042468ACE034313C"[4:], "0D0F2204AABBCCDD66118ECD8D118AD47B"]))
+                Seq(V_MBXML[6:8]), Seq(V_MBXML[8:10]))
 
 
 
@@ -1304,10 +1304,49 @@ def _alone(call) -> dict:
 def _check_catalogue_call(c):
     if not isinstance(c, dict) or c.get("e") not in CATALOGUE or not isinstance(c.get("a"), dict):
         raise HarnessError(f"malformed call in case: {c!r}")
+    if c.get("op") not in (None, "scribble_repeat", "reuse") or (c.get("op") == "reuse" and not isinstance(c.get("b"), dict)):
+        raise HarnessError(f"malformed compound step in case: {c!r}")
+
+
+MUT_EXPECTED = "every bit/byte buffer passed to the call equals the deep copy taken before the call"
+COMPOUND = {
+    "scribble_repeat": ("scribble_and_repeat_same_result", ["call", "call again after the caller damaged, in place, every mutable buffer / list / dict it got hold of (result and arguments)"]),
+    "reuse": ("argument_reuse_same_result", ["call with arguments a", "call with arguments b written in place into the buffers of the first call", "call with a fresh copy of arguments a"]),
+}
+
+
+def _parts(step):
+    """the plain calls whose fresh-state observations a step's records must equal"""
+    x = {"e": step["e"], "a": step["a"]}
+    if step.get("op") == "scribble_repeat":
+        return [x, x]
+    if step.get("op") == "reuse":
+        return [x, {"e": step["e"], "a": step["b"]}, x]
+    return [x]
+
+
+def _records(step, rec):
+    return rec["multi"] if step.get("op") else [rec]
+
+
+def _judge_step_alone(i, step, rec):
+    """A step run in a fresh state: argument buffers unchanged; every record of a compound step equals the fresh-state
+    observation of the plain call."""
+    for r in _records(step, rec):
+        if r.get("mut"):
+            raise Fail("argument_buffers_unchanged", observed={"call_index": i, "entry": step["e"], "changed": _clip(r["mut"], 600), "op": step.get("op")}, expected=MUT_EXPECTED, klass=step["e"])
+    if step.get("op"):
+        clause, labels = COMPOUND[step["op"]]
+        for k, (r, plain) in enumerate(zip(rec["multi"], _parts(step))):
+            B = _alone(plain)
+            if r != B:
+                raise Fail(clause, observed={"call_index": i, "entry": step["e"], "step": labels[k], "first_difference": _first_diff(r, B, "$", "observed", "fresh_state")},
+                           expected="the observation the plain call gives in a fresh interpreter state", klass=step["e"])
 
 
 def oracle_history(case):
-    """case = {calls: [{e, a}, ...], kind?}.  Child A runs the history, child B_i runs call i alone."""
+    """case = {calls: [step, ...], kind?}; a step is a plain call {e, a} or a compound step {op: scribble_repeat | reuse, e, a[, b]}.
+    Child A runs the history, child B_i runs step i alone."""
     calls = case["calls"]
     if not calls:
         return
@@ -1320,17 +1359,15 @@ def oracle_history(case):
     if calls[0]["e"] not in VOLATILE:
         _B_CACHE.setdefault(_key(calls[0]), A[0])
     _LAST.clear()
-    _LAST.update(raised=sum(1 for o in A if "raised" in o), n=len(calls))
+    _LAST.update(raised=sum(1 for c, o in zip(calls, A) for r in _records(c, o) if "raised" in r), n=len(calls))
     for i, (c, o) in enumerate(zip(calls, A)):
-        if o.get("mut"):
-            raise Fail("argument_buffers_unchanged", observed={"call_index": i, "entry": c["e"], "changed": _clip(o["mut"], 600)},
-                       expected="every bit/byte buffer passed to the call equals the deep copy taken before the call", klass=c["e"])
-    for i in range(1, len(calls)):
+        for r in _records(c, o):
+            if r.get("mut"):
+                raise Fail("argument_buffers_unchanged", observed={"call_index": i, "entry": c["e"], "changed": _clip(r["mut"], 600), "op": c.get("op")}, expected=MUT_EXPECTED, klass=c["e"])
+    for i in range(len(calls)):
         B = _alone(calls[i])
-        if B.get("mut"):
-            raise Fail("argument_buffers_unchanged", observed={"call_index": i, "entry": calls[i]["e"], "changed": _clip(B["mut"], 600), "alone": True},
-                       expected="every bit/byte buffer passed to the call equals the deep copy taken before the call", klass=calls[i]["e"])
-        if A[i] == B:
+        _judge_step_alone(i, calls[i], B)
+        if i == 0 or A[i] == B:
             continue
         culprit = None
         for j in range(i):
@@ -1489,7 +1526,20 @@ def history_strategy(max_len: int = 12, probes: bool = True):
 
         return st.tuples(args_strategy(CATALOGUE[e]), st.lists(one, min_size=1, max_size=4)).map(build)
 
+    def compound(e):
+        """scribble-and-repeat of one call, or argument re-use between two calls of the entry (second arguments: fresh, or the
+        first ones with one argument redrawn)"""
+        a = args_strategy(CATALOGUE[e])
+        specs = CATALOGUE[e].args
+        b = a
+        if specs:
+            b = st.one_of(a, st.tuples(a, st.sampled_from(sorted(specs)).flatmap(lambda n: st.tuples(st.just(n), specs[n].strat()))).map(lambda t: {**t[0], t[1][0]: t[1][1]}))
+        return st.one_of(a.map(lambda x: {"e": e, "a": x, "op": "scribble_repeat"}), st.tuples(a, b).map(lambda t: {"e": e, "a": t[0], "b": t[1], "op": "reuse"}))
+
+    any_compound = st.sampled_from(ids).flatmap(compound)
+
     return st.one_of(
+        kind("scribble_and_repeat", st.tuples(st.lists(any_compound, min_size=1, max_size=3), st.lists(any_call, max_size=3)).map(lambda t: t[0] + t[1])),
         kind("random", st.lists(any_call, min_size=1, max_size=max_len)),
         kind("group", st.sampled_from(sorted(groups)).flatmap(lambda g: st.lists(group_call[g], min_size=2, max_size=min(10, max_len)))),
         kind("same_entry", st.sampled_from(ids).flatmap(lambda e: st.lists(call_of[e], min_size=2, max_size=5))),
@@ -1521,6 +1571,9 @@ def _record(sub):
             t.cls(sub, "with_state_probes")
         t.case(sub, key=case, nontrivial=_same_group_twice(calls), cls="kind=" + kind.replace("+probes", ""))
         t.cls(sub, "len=" + ("1" if n == 1 else "2-3" if n <= 3 else "4-7" if n <= 7 else "8-12"))
+        for c in calls:
+            if c.get("op"):
+                t.cls(sub, "steps_" + c["op"])
         t.cls(sub, "calls_total", n)
         t.cls(sub, "calls_raised", _LAST.get("raised", 0))
         for g in sorted({CATALOGUE[c["e"]].group for c in calls}):
@@ -1605,8 +1658,32 @@ def drv_pairs(ctx: Ctx, sub: SubCheck):
                 out.append({"e": w["e"], "a": a})
         return out if len(out) > 1 else []
 
+    def compound_single(step, t: Tally):
+        ctx.run_case(sub.name, oracle_history, {"kind": "scribble_and_repeat", "calls": [step]}, t)
+        t.case(sub.name, nontrivial=True, cls="step_" + step["op"])
+
+    def family_work(fam, t: Tally):
+        """one mode (opcode / variant / length) of one entry, two calls of the same shape: ordered pairs both ways, the argument
+        re-use form both ways, scribble-and-repeat of each"""
+        for x in fam:
+            compound_single({"e": x["e"], "a": x["a"], "op": "scribble_repeat"}, t)
+        for x in fam:
+            for y in fam:
+                if x is not y:
+                    ctx.run_case(sub.name, oracle_history, {"kind": "canonical_pair", "calls": [x, y]}, t)
+                    t.case(sub.name, nontrivial=True, cls="pair_same_mode_other_data")
+                    compound_single({"e": x["e"], "a": x["a"], "b": y["a"], "op": "reuse"}, t)
+        t.cls(sub.name, "modes_covered")
+
     def work(chunk, t: Tally):
+        if chunk and isinstance(chunk[0], list):
+            for fam in chunk:
+                family_work(fam, t)
+            t.sample(sub.name, {"kind": "scribble_and_repeat", "calls": [{"e": chunk[0][0]["e"], "a": chunk[0][0]["a"], "b": chunk[0][-1]["a"], "op": "reuse"}]})
+            return
         for w in chunk:
+            if first[w["e"]] is w or not ctx.quick:
+                compound_single({"e": w["e"], "a": w["a"], "op": "scribble_repeat"}, t)
             rs = calls if not ctx.quick else [c for c in calls if grp(c) == grp(w)]
             for r in rs:
                 exact(w, r, t)
@@ -1618,14 +1695,17 @@ def drv_pairs(ctx: Ctx, sub: SubCheck):
                 sweep(w, [c for e, c in sorted(first.items()) if grp(c) != grp(w)], t)
             t.sample(sub.name, {"kind": "canonical_pair", "calls": [w, rs[len(rs) // 2]]})
 
-    items = [calls[i::64] for i in range(64)]
+    families = [f for e in sorted(CATALOGUE) for f in mode_families(CATALOGUE[e])]
+    items = [calls[i::64] for i in range(64)] + [families[i::48] for i in range(48)]
     ctx.shards(work, [c for c in items if c])
     ctx.tally.exhaustive[sub.name] = True
     ctx.tally.extra["canonical_calls"] = len(calls)
+    ctx.tally.extra["modes_of_entries"] = len(families)
     ctx.tally.extra["canonical_pair_space"] = (
         "every ordered pair of the canonical calls (directed argument sets + <=4 generated variants per entry), one child per pair" if not ctx.quick else
         "every ordered pair of canonical calls (directed + <=3 generated variants per entry) inside a group, one child per pair; across groups one sweep per entry")
-    ctx.tally.notes.append("pairs: exhaustive over ordered pairs of the fixed canonical calls only (not over arguments)")
+    ctx.tally.notes.append("pairs: exhaustive over ordered pairs of the fixed canonical calls only (not over arguments); every mode of every entry "
+                           "(each-choice over opcode / variant / length switches of the argument specs) with two same-shape calls: ordered pairs, argument re-use, scribble-and-repeat")
 
 
 def drv_clock(ctx: Ctx, sub: SubCheck):
